@@ -433,9 +433,12 @@ def search(prop, tier, base_seed, jobs=None, runs=None, wall=None, verbose=True)
         print(f"VIOLATION property={prop} replay={rep['replay']}")
     if errors:
         print(f"HARNESS-ERROR property={prop}: {len(errors)} error(s); first:\n{errors[0]}")
-        return 2
     if reported:
+        # a violation that was found, minimised and replayed stands even if other scenarios of the batch could
+        # not be completed (a design that hangs makes scripted actors run into their cycle caps)
         return 1
+    if errors:
+        return 2
     if cov["evaluations"] == 0:
         print(f"HARNESS-ERROR property={prop}: nothing was evaluated")
         return 2
